@@ -174,8 +174,10 @@ Definition put_targets (stores : list store) (st : scst) (grp : Z) (targets : li
 (* peer moves (balance-region transferPeer, shuffle-region, hot-region move-peer, shuffle-hot-region): targets that pass
    excluded(region stores), the scheduler's special-use filter `su` and its StoreStateFilter literal (flags from
    Gen_C11); the placement safeguard and the float score / load filters may only remove candidates *)
+Definition move_pred (flags : sfilter) (su : store -> bool) (r : region) (s : store) : bool :=
+  negb (memZ (sid s) (stores_of (peers r))) && negb (su s) && sft flags s.
 Definition move_targets (flags : sfilter) (su : store -> bool) (stores : list store) (r : region) : list store :=
-  filter (fun s => negb (memZ (sid s) (stores_of (peers r))) && negb (su s) && sft flags s) stores.
+  filter (move_pred flags su r) stores.
 
 (* NewSpecialUseFilter(scope, SpecialUseHotRegion): only `reserved` stores are refused (hot-region) *)
 Definition special_use_reserved (s : store) : bool :=
